@@ -101,11 +101,11 @@ U(id="fib.signalv.delivered", **{"class": "full-domain"}, tier="thorough",
 
 NEWSTUBS = ["janet_getfunction:fib_getfunction_stub", "janet_getbytes:fib_getbytes_stub", "janet_gettable:fib_gettable_stub",
             "janet_table:fib_table_stub", "janet_fiber:fib_fiber_stub"]
-U(id="fib.new.flags", **{"class": "bounded"}, bound="flag keyword of at most 10 characters, every character fully symbolic (loops unwound with unwinding assertion)",
+U(id="fib.new.flags", **{"class": "bounded"}, bound="flag keyword of at most 8 characters, every character fully symbolic (loops unwound with unwinding assertion)",
   clause="fiber/new: the mask bits set are exactly those named by the flag keyword (reference decoding from the docstring), unknown characters are refused, the fiber starts NEW, "
          "and the environment is inherited only through :i / :p (last one wins)",
-  src=["fiber.c"], harness=["fib_new.c"], entry="h_fiber_new", mode="plain", defines=["-DFIB_MAXLEN=10"], replace_calls=NEWSTUBS, functions=["cfun_fiber_new"],
-  checks=CHK, unwind=12, unwinding_assertions=True,
+  src=["fiber.c"], harness=["fib_new.c"], entry="h_fiber_new", mode="plain", defines=["-DFIB_MAXLEN=8"], replace_calls=NEWSTUBS, functions=["cfun_fiber_new"],
+  checks=CHK, unwind=10, unwinding_assertions=True,
   assumes=["janet_fiber returns a NEW fiber with the default mask (fiber_reset, unit fib.new.reset); janet_getfunction/janet_getbytes/janet_gettable return their argument's payload; janet_table returns a fresh table"],
   mutants=[
     {"name": "t-includes-user5", "file": "fiber.c", "find": "                            JANET_FIBER_MASK_USER4;\n                        break;\n                    case 'd':", "replace": "                            JANET_FIBER_MASK_USER4 | JANET_FIBER_MASK_USER5;\n                        break;\n                    case 'd':", "expect": "exactly those named"},
@@ -149,10 +149,10 @@ TAILSTUBS = ["janet_fiber_setcapacity:fib_realloc_stub", "janet_tuple_n:fib_tupl
 TAILCHK = ["bounds-check", "pointer-check", "signed-overflow-check"]
 TAILCLAUSE = ("janet_fiber_funcframe_tail: arity mismatch refused and nothing changes; on success fiber->frame is kept, argument k arrives unchanged in parameter slot k, "
               "missing parameters and all other new frame slots are nil, header names the callee and keeps the caller link; no access outside the live stack block")
-U(id="fib.funcframe_tail", **{"class": "bounded"}, tier="thorough", bound="stack of at most 8 slots, callee slot count at most 4 (loops unwound with unwinding assertions); realloc modelled faithfully (old block freed); "
-  "domain excludes the second reallocation in the variadic branch (see fib.funcframe_tail.regrow)",
-  clause=TAILCLAUSE, src=["fiber.c"], link=["wrap.c"], link_keep={"wrap.c": ["janet_nanbox_from_bits"]}, harness=["fib_frame_tail.c"], entry="h_funcframe_tail_b", mode="plain", defines=["-DFIB_NO_REGROW"],
-  replace_calls=TAILSTUBS, functions=["janet_fiber_funcframe_tail"], checks=TAILCHK, unwind=10, unwinding_assertions=True, timeout=600, cbmc=CADICAL, object_bits=8,
+U(id="fib.funcframe_tail", **{"class": "bounded"}, tier="thorough", bound="stack of at most 10 slots (at most 2 arguments), callee slot count at most 5 (loops unwound with unwinding assertions); realloc modelled faithfully (old block freed); "
+  "domain excludes calls that take the second reallocation in the variadic branch (known defect, see fib.funcframe_tail.regrow)",
+  clause=TAILCLAUSE, src=["fiber.c"], link=["wrap.c"], link_keep={"wrap.c": ["janet_nanbox_from_bits"]}, harness=["fib_frame_tail.c"], entry="h_funcframe_tail_b", mode="plain", defines=["-DFIB_NO_REGROW", "-DFIB_CAP=10"],
+  replace_calls=TAILSTUBS, functions=["janet_fiber_funcframe_tail"], checks=TAILCHK, unwind=12, unwinding_assertions=True, timeout=1500, cbmc=CADICAL, object_bits=8,
   assumes=["janet_fiber_setcapacity behaves as realloc: new block with the old contents, old block freed", "janet_tuple_n / make_struct_n only read their argument range (asserted); janet_env_detach does not write the fiber",
            "memmove moves whole slots through a temporary (stub asserts that source and destination lie in a live block)"],
   mutants=[
@@ -160,14 +160,14 @@ U(id="fib.funcframe_tail", **{"class": "bounded"}, tier="thorough", bound="stack
     {"name": "args-not-moved", "file": "fiber.c", "find": "    if (stacksize) memmove(stack, args, stacksize * sizeof(Janet));", "replace": "    if (stacksize > 1) memmove(stack, args, stacksize * sizeof(Janet));", "expect": "arrives unchanged"},
     {"name": "arity-unchecked", "file": "fiber.c", "find": "    if (next_arity > func->def->max_arity) return 1;\n\n    if (fiber->capacity < nextstacktop) {\n        janet_fiber_setcapacity(fiber, 2 * nextstacktop);\n#ifdef JANET_DEBUG\n    } else {\n        janet_fiber_refresh_memory(fiber);\n#endif\n    }\n\n    Janet *stack", "replace": "    if (fiber->capacity < nextstacktop) {\n        janet_fiber_setcapacity(fiber, 2 * nextstacktop);\n    }\n\n    Janet *stack", "expect": "refused exactly"},
   ])
-U(id="fib.funcframe_tail.regrow", **{"class": "bounded"}, tier="thorough", bound="stack of at most 8 slots, callee slot count at most 4",
+U(id="fib.funcframe_tail.regrow", **{"class": "bounded"}, tier="thorough", bound="stack of at most 10 slots, callee slot count at most 5 (the smallest bound in which the second reallocation is reachable)",
   disabled_reason="FAILS on the real code (genuine defect, reproduced with /repo/_build/janet): janet_fiber_funcframe_tail computes `stack` and `args` from fiber->data BEFORE the variadic branch "
                   "may call janet_fiber_setcapacity(fiber, 2 * (tuplehead + 1)); after that realloc both pointers dangle, memmove copies inside the freed block and the callee's parameter slots keep "
                   "whatever the caller had there. Failing obligations: memmove source/destination readable/writeable (deallocated object), 'argument k arrives unchanged', 'missing parameters and locals are nil'. "
                   "Reproducer: (defn B [&opt b1 b2 b3 b4 b5 b6 b7 b8 b9 b10 & rest] [b1 b2 b3 b10 rest]) (def A (eval ~(fn A [] ,;(seq [i :range [0 50]] ~(var ,(symbol \"l\" i) ,(+ 1000 i))) (set l0 (+ l1 l2)) (B)))) "
                   "(pp (resume (fiber/new A))) prints (nil 2003 1001 nil nil) instead of (nil nil nil nil ()).",
-  clause=TAILCLAUSE + " - including calls that regrow the stack for the rest slot", src=["fiber.c"], link=["wrap.c"], link_keep={"wrap.c": ["janet_nanbox_from_bits"]}, harness=["fib_frame_tail.c"], entry="h_funcframe_tail_b", mode="plain",
-  replace_calls=TAILSTUBS, functions=["janet_fiber_funcframe_tail"], checks=TAILCHK, unwind=10, unwinding_assertions=True, timeout=600, cbmc=CADICAL, object_bits=8,
+  clause=TAILCLAUSE + " - including calls that regrow the stack for the rest slot", src=["fiber.c"], link=["wrap.c"], link_keep={"wrap.c": ["janet_nanbox_from_bits"]}, harness=["fib_frame_tail.c"], entry="h_funcframe_tail_b", mode="plain", defines=["-DFIB_CAP=10"],
+  replace_calls=TAILSTUBS, functions=["janet_fiber_funcframe_tail"], checks=TAILCHK, unwind=12, unwinding_assertions=True, timeout=1500, cbmc=CADICAL, object_bits=8,
   assumes=["janet_fiber_setcapacity behaves as realloc: new block with the old contents, old block freed"],
   mutants=[
     {"name": "nil-fill-starts-late", "file": "fiber.c", "find": "    for (i = fiber->frame + stacksize; i < nextframetop; ++i)", "replace": "    for (i = fiber->frame + stacksize + 1; i < nextframetop; ++i)", "expect": "nil"},
